@@ -756,6 +756,10 @@ fn main() {
                     th_chaos_managed(&args, &mut rep, prop, sc(250.0, 6000.0), true);
                 }
             }
+            // status() of the unmanaged pool is the same `Status` and the same promise
+            if prop == "C11" && args.engine_enabled("utl") {
+                utl_random(&args, &mut rep, prop, sc(10_000.0, 300_000.0));
+            }
         }
     }
     let code = rep.finish(&args);
